@@ -255,7 +255,8 @@ Proof.
   set (l := e0 :: e1 :: e2 :: e3 :: e4 :: e5 :: Str vb :: e7 :: e8 :: rest) in *.
   destruct (negb (v =? 27)%Z && negb (v =? 28)%Z) eqn:EV.
   - (* EIP-155 *)
-    destruct (negb (_ =? 27)%Z && negb (_ =? 28)%Z) eqn:EV'; [discriminate|].
+    set (v' := wrap64 (wrap64 (v - wrap64 (chain * 2)) - 8)).
+    destruct (negb (v' =? 27)%Z && negb (v' =? 28)%Z) eqn:EV'; [discriminate|].
     cbn [bind]. intros X. apply recoverCommon_sound in X as [-> [-> [q [Ha Hv]]]].
     exists l, pos, (Str vb), e7, e8, q. rewrite !elem_int_bytes in Hv.
     repeat split; auto. right.
@@ -263,10 +264,8 @@ Proof.
     { unfold v_is_legacy. apply andb_true_iff in EV as [A B].
       apply negb_true_iff in A, B. apply Z.eqb_neq in A, B. tauto. }
     split; [exact NV|]. split.
-    { unfold v_is_eip155. fold v. cbv zeta.
-      destruct (Z.eqb_spec (wrap64 (wrap64 (v - wrap64 (chain * 2)) - 8)) 27); [tauto|].
-      destruct (Z.eqb_spec (wrap64 (wrap64 (v - wrap64 (chain * 2)) - 8)) 28); [tauto|].
-      discriminate. }
+    { unfold v_is_eip155. fold v. cbv zeta. fold v'.
+      destruct (Z.eqb_spec v' 27); [tauto|]. destruct (Z.eqb_spec v' 28); [tauto|]. discriminate. }
     unfold AddEIP155HashValuesToRLPList.
     change [e0; e1; e2; e3; e4; e5] with (firstn 6 l).
     rewrite (encode_prefix_is_RLP l 6 [WrapBig chain; WrapBig 0; WrapBig 0] Hsz).
@@ -282,6 +281,151 @@ Proof.
     change [e0; e1; e2; e3; e4; e5] with (firstn 6 l ++ []) at 1.
     rewrite (encode_prefix_is_RLP l 6 [] Hsz); [|reflexivity|cbn; lia].
     rewrite app_nil_r. change (firstn 6 l) with [e0; e1; e2; e3; e4; e5]. rewrite FS. reflexivity.
+Qed.
+
+(* ---------- EIP-1559 ---------- *)
+
+(* what a successful decodeEIP1559SignaturePayload establishes *)
+Lemma decode1559_inv bs chain n l t : (9 <= n)%nat ->
+  decodeEIP1559SignaturePayload bs chain n = Ok (l, t) ->
+  exists rest pos c0 e1 e2 e3 e4 e5 e6 e7 al tl,
+    bs = x02 :: rest /\ Decode rest = Ok (Some (Lst l), pos) /\ size_ok (Lst l) = true /\
+    (n <= length l)%nat /\
+    l = Str c0 :: e1 :: e2 :: e3 :: e4 :: e5 :: e6 :: e7 :: Lst al :: tl /\
+    head_nz c0 /\ Z.of_N (of_be c0) = chain /\
+    t = eip1559_tx e1 e2 e3 e4 e5 e6 e7 /\
+    map to_tree (firstn 9 l) = eip1559_body_al (norm t) (Z.to_N chain) (L (map to_tree al)).
+Proof.
+  intros Hn. unfold decodeEIP1559SignaturePayload.
+  destruct bs as [|b0 rest]; [discriminate|].
+  destruct (N.eqb_spec (b2n b0) (b2n TransactionType1559)) as [Eb|Eb]; cbn [negb]; [|discriminate].
+  apply b2n_inj in Eb. subst b0.
+  destruct (Decode_total_in_bounds rest) as [_ [_ HB]].
+  destruct (Decode rest) as [[decoded pos]|e|] eqn:ED; try discriminate.
+  destruct decoded as [[b|l0]|]; try discriminate.
+  destruct (HB (Lst l0) pos eq_refl) as [_ [Hsz _]].
+  destruct (length l0 <? n)%nat eqn:E9; [discriminate|]. apply Nat.ltb_ge in E9.
+  destruct l0 as [|e0 [|e1 [|e2 [|e3 [|e4 [|e5 [|e6 [|e7 [|e8 tl]]]]]]]]]; cbn [length] in E9; try lia.
+  unfold idx, lslice. cbn [nth_error bind length Nat.leb andb Nat.sub skipn firstn].
+  destruct (negb (IntOrZero (ToData e0) <? 2 ^ 63)%N || negb (Z.of_N (IntOrZero (ToData e0)) =? chain)%Z) eqn:EC;
+    [discriminate|].
+  apply orb_false_iff in EC as [_ EC]. apply negb_false_iff, Z.eqb_eq in EC.
+  destruct (canonicalFields [e0; e1; e2; e3; e4; e5; e6; e7] 5 7) eqn:ECF; cbn [negb]; [|discriminate].
+  destruct e8 as [|al]; cbn [IsList negb]; [discriminate|].
+  intros X. injection X as <- <-.
+  destruct (eip1559_fields_spec _ _ _ _ _ _ _ _ ECF) as [c0 [-> [Hc0 FS]]].
+  cbn [ToData IntOrZero] in EC.
+  exists rest, pos, c0, e1, e2, e3, e4, e5, e6, e7, al, tl.
+  repeat split; auto.
+  fold (eip1559_tx e1 e2 e3 e4 e5 e6 e7).
+  unfold eip1559_body_al.
+  change [Str c0; e1; e2; e3; e4; e5; e6; e7; Lst al]
+    with ([Str c0; e1; e2; e3; e4; e5; e6; e7] ++ [Lst al]).
+  rewrite map_app, FS. rewrite <- EC, N2Z.id. reflexivity.
+Qed.
+
+Theorem Recover1559_sound bs chain a t p :
+  RecoverEIP1559Transaction H RD bs chain = Ok (a, t, p) ->
+  exists rest l pos c0 al e10 e11 q,
+    bs = x02 :: rest /\ Decode rest = Ok (Some (Lst l), pos) /\
+    nth_error l 0 = Some (Str c0) /\ Z.of_N (of_be c0) = chain /\
+    nth_error l 8 = Some (Lst al) /\ nth_error l 10 = Some e10 /\ nth_error l 11 = Some e11 /\
+    a = addr_of q /\ verify q (H p) (Z.of_N (elem_int e10)) (Z.of_N (elem_int e11)) /\
+    p = x02 :: RLP (L (eip1559_body_al (norm t) (Z.to_N chain) (L (map to_tree al)))).
+Proof.
+  unfold RecoverEIP1559Transaction.
+  destruct (decodeEIP1559SignaturePayload bs chain 12) as [[l t0]|e|] eqn:ED; cbn [bind]; try discriminate.
+  destruct (decode1559_inv bs chain 12 l t0 ltac:(lia) ED)
+    as [rest [pos [c0 [e1 [e2 [e3 [e4 [e5 [e6 [e7 [al [tl [-> [EDec [Hsz [Hlen [El [Hc0 [Ech [Et FS]]]]]]]]]]]]]]]]]]]].
+  destruct tl as [|e9 [|e10 [|e11 tl']]]; try (subst l; cbn [length] in Hlen; lia).
+  unfold idx. rewrite El. cbn [nth_error bind].
+  destruct (IsList e9) eqn:EL; [discriminate|].
+  rewrite <- El.
+  unfold lslice. replace ((0 <=? 9)%nat && (9 <=? length l)%nat) with true
+    by (symmetry; apply andb_true_iff; split; apply Nat.leb_le; lia).
+  cbn [bind]. change (firstn (9 - 0) (skipn 0 l)) with (firstn 9 l).
+  destruct e9 as [vb|]; [|discriminate]. unfold IntInt64. cbn [ToData DataInt bind].
+  intros X. apply recoverCommon_sound in X as [-> [-> [q [Ha Hv]]]].
+  rewrite !elem_int_bytes in Hv.
+  exists rest, l, pos, c0, al, e10, e11, q.
+  rewrite El at 2 3 4 5. cbn [nth_error].
+  repeat split; auto.
+  unfold TransactionType1559. f_equal.
+  replace (firstn 9 l) with (firstn 9 l ++ []) by apply app_nil_r.
+  rewrite (encode_prefix_is_RLP l 9 [] Hsz); [|reflexivity|cbn; lia].
+  rewrite app_nil_r, FS. reflexivity.
+Qed.
+
+Theorem Decode1559_sound bs chain t :
+  DecodeEIP1559SignaturePayload bs chain = Ok t ->
+  exists rest l pos c0 al,
+    bs = x02 :: rest /\ Decode rest = Ok (Some (Lst l), pos) /\
+    nth_error l 0 = Some (Str c0) /\ Z.of_N (of_be c0) = chain /\ nth_error l 8 = Some (Lst al) /\
+    x02 :: encode (Lst (firstn 9 l)) =
+      x02 :: RLP (L (eip1559_body_al (norm t) (Z.to_N chain) (L (map to_tree al)))).
+Proof.
+  unfold DecodeEIP1559SignaturePayload.
+  destruct (decodeEIP1559SignaturePayload bs chain 9) as [[l t0]|e|] eqn:ED; cbn [bind]; try discriminate.
+  intros X. injection X as <-.
+  destruct (decode1559_inv bs chain 9 l t0 ltac:(lia) ED)
+    as [rest [pos [c0 [e1 [e2 [e3 [e4 [e5 [e6 [e7 [al [tl [-> [EDec [Hsz [Hlen [El [Hc0 [Ech [Et FS]]]]]]]]]]]]]]]]]]]].
+  exists rest, l, pos, c0, al. rewrite El at 2 3. cbn [nth_error]. repeat split; auto.
+  f_equal. replace (firstn 9 l) with (firstn 9 l ++ []) by apply app_nil_r.
+  rewrite (encode_prefix_is_RLP l 9 [] Hsz); [|reflexivity|cbn; lia].
+  rewrite app_nil_r, FS. reflexivity.
+Qed.
+
+(* the chain-id clause on its own: a type-0x02 input whose first list element is not the supplied
+   chain id (as an integer, whatever its width) is refused by all three entry points *)
+Theorem chain_id_mismatch_refused rest l pos e0 chain :
+  Decode rest = Ok (Some (Lst l), pos) -> nth_error l 0 = Some e0 ->
+  Z.of_N (elem_int e0) <> chain ->
+  (exists e, RecoverRawTransaction H RD (x02 :: rest) chain = Err e) /\
+  (exists e, RecoverEIP1559Transaction H RD (x02 :: rest) chain = Err e) /\
+  (exists e, DecodeEIP1559SignaturePayload (x02 :: rest) chain = Err e).
+Proof.
+  intros ED E0 NE.
+  assert (D : forall n, exists e, decodeEIP1559SignaturePayload (x02 :: rest) chain n = Err e).
+  { intros n. unfold decodeEIP1559SignaturePayload.
+    change (negb (b2n x02 =? b2n TransactionType1559)%N) with false. cbv iota. rewrite ED.
+    destruct (length l <? n)%nat; [eauto|].
+    unfold idx. rewrite E0. cbn [bind].
+    assert (IntOrZero (ToData e0) = elem_int e0) as -> by (destruct e0; reflexivity).
+    destruct (Z.eqb_spec (Z.of_N (elem_int e0)) chain) as [Eq|_]; [contradiction|].
+    rewrite orb_true_r. eauto. }
+  assert (R : exists e, RecoverEIP1559Transaction H RD (x02 :: rest) chain = Err e).
+  { unfold RecoverEIP1559Transaction. destruct (D 12%nat) as [e ->]. cbn [bind]. eauto. }
+  split; [|split; [exact R|]].
+  - unfold RecoverRawTransaction. change (199 <=? b2n x02)%N with false. cbv iota.
+    change (b2n x02 =? b2n TransactionType1559)%N with true. cbv iota. exact R.
+  - unfold DecodeEIP1559SignaturePayload. destruct (D 9%nat) as [e ->]. cbn [bind]. eauto.
+Qed.
+
+(* ---------- the dispatching entry point ---------- *)
+Theorem RecoverRaw_sound bs chain a t p : (0 <= chain < 2 ^ 63)%Z ->
+  RecoverRawTransaction H RD bs chain = Ok (a, t, p) ->
+  (* legacy: the input is an RLP list *)
+  (exists l pos e6 e7 e8 q,
+    Decode bs = Ok (Some (Lst l), pos) /\
+    nth_error l 6 = Some e6 /\ nth_error l 7 = Some e7 /\ nth_error l 8 = Some e8 /\
+    a = addr_of q /\ verify q (H p) (Z.of_N (elem_int e7)) (Z.of_N (elem_int e8)) /\
+    ( (v_is_legacy (legacy_v e6) /\ p = spec_preimage Original (norm t) 0) \/
+      (~ v_is_legacy (legacy_v e6) /\ v_is_eip155 (legacy_v e6) chain /\
+       p = spec_preimage Eip155 (norm t) (Z.to_N chain)) ))
+  \/
+  (* EIP-2718 type 0x02 *)
+  (exists rest l pos c0 al e10 e11 q,
+    bs = x02 :: rest /\ Decode rest = Ok (Some (Lst l), pos) /\
+    nth_error l 0 = Some (Str c0) /\ Z.of_N (of_be c0) = chain /\
+    nth_error l 8 = Some (Lst al) /\ nth_error l 10 = Some e10 /\ nth_error l 11 = Some e11 /\
+    a = addr_of q /\ verify q (H p) (Z.of_N (elem_int e10)) (Z.of_N (elem_int e11)) /\
+    p = x02 :: RLP (L (eip1559_body_al (norm t) (Z.to_N chain) (L (map to_tree al))))).
+Proof.
+  intros Hc. unfold RecoverRawTransaction. destruct bs as [|b rest]; [discriminate|].
+  destruct (199 <=? b2n b)%N.
+  - intros X. left. eapply RecoverLegacy_sound; eauto.
+  - destruct (b2n b =? b2n TransactionType1559)%N; [|discriminate].
+    intros X. right. eapply Recover1559_sound; eauto.
 Qed.
 
 End Sound.
